@@ -597,7 +597,8 @@ func (e *FnExec) applyContract(st *State, key string, con *Contract, sig *types.
 					for _, it := range items {
 						var g *Term
 						if it.loc != nil {
-							g = inItems(it.loc, it.class, li.items)
+							// nil-based locations cannot be written at all
+							g = Or(inItems(it.loc, it.class, li.items), Le(li.before.ctr, Root(it.loc)), Eq(Root(it.loc), IntLit(0)))
 						} else {
 							var ds []*Term
 							for _, lit := range li.items {
